@@ -44,6 +44,7 @@ class Inst:
     grids: dict  # "A","B","C" -> ndarray
     sched_S: np.ndarray | None
     table: str = "pvt_gas"
+    o_long: bool = False    # the schedule "O" of the alphabet (a length no grid has): one element, or (True) S continued past the longest grid
     pf_box: str = "float"   # how the caller holds the frac-face pressure: Python float, numpy scalar, 0-d array (what interp1d returns), 1-element array
     _fluid: object = field(default=None, repr=False)
 
@@ -89,6 +90,12 @@ class Inst:
         if s == "E":
             return np.array([], dtype=float)
         if s == "O":
+            if self.o_long:
+                # a pressure history that goes on after the simulated times: S followed by further readings, two more entries
+                # than the longest grid of the instance (never truncated to fit: rejected like any other length mismatch)
+                extra = max(len(t) for t in self.grids.values()) + 2 - len(self.sched_S)
+                tail = float(self.sched_S[-1]) * (1.0 - 0.01 * np.arange(1, extra + 1))
+                return np.concatenate([self.sched_S, tail])
             return np.array([float(self.sched_S[0])])
         raise KeyError(s)
 
@@ -103,6 +110,7 @@ PF_BOX = {1: "np", 2: "0d", 4: "1d", 6: "np", 7: "0d", 8: "1d"}
 def default_inst(kind: str, variant: int = 0, rng: np.random.Generator | None = None) -> Inst:
     inst = _default_inst(kind, variant, rng)
     inst.pf_box = PF_BOX.get(variant, "float")
+    inst.o_long = variant % 4 == 2 and inst.sched_S is not None
     if inst.pf_box == "1d" and kind != "ideal":
         inst.pf_box = "0d"   # a 1-element array is not a scalar setting for the schedule of the single-phase class
     return inst
